@@ -68,8 +68,23 @@ PINS = {
 }
 
 
+# non-python sources whose hand-made model is trusted: pinned as raw text (whitespace-normalised line by line)
+RAW_PINS = {'C20': ['graph.js']}
+
+
 class PinError(Exception):
     pass
+
+
+def raw_source(fn):
+    path = os.path.join(REPO, 'kingdon', fn)
+    if not os.path.exists(path):
+        raise PinError(f'{fn} not found')
+    return '\n'.join(' '.join(line.split()) for line in open(path).read().splitlines() if line.strip())
+
+
+def raw_ident(fn):
+    return 'raw_' + re.sub(r'\W', '_', fn)
 
 
 _cache = {}
@@ -141,6 +156,12 @@ def generate():
         except PinError as e:
             text = f'<<MISSING: {e}>>'            # the pin lemma then fails: fail-closed
         lines.append(f'Definition {ident(pin)} : string := {coq_string(text)}.')
+    for fn in sorted({f for fs in RAW_PINS.values() for f in fs}):
+        try:
+            text = raw_source(fn)
+        except PinError as e:
+            text = f'<<MISSING: {e}>>'
+        lines.append(f'Definition {raw_ident(fn)} : string := {coq_string(text)}.')
     return '\n'.join(lines) + '\n'
 
 
@@ -153,6 +174,8 @@ def accept():
         for pin in pins:
             text = source(find(*pin))
             lines.append(f'Lemma pin_{ident(pin)[4:]} : {ident(pin)} = {coq_string(text)}.\nProof. reflexivity. Qed.')
+        for fn in RAW_PINS.get(pid, []):
+            lines.append(f'Lemma pin_{raw_ident(fn)} : {raw_ident(fn)} = {coq_string(raw_source(fn))}.\nProof. reflexivity. Qed.')
         path = os.path.join(ROOT, 'coq', 'Bridge', f'Pins_{pid}.v')
         with open(path, 'w') as f:
             f.write('\n'.join(lines) + '\n')
